@@ -575,6 +575,116 @@ Theorem C11_for_increment_break_escapes :
   end.
 Proof. exact for_increment_break_escapes. Qed.
 
+(* ------------------------------------------------------------------------------------------------ *)
+(* 2.3 the iteration limit                                                                            *)
+Section Limit2.
+  Variables Name Atom Op Val World Bnd FId Err : Type.
+  Variable L : lang Name Atom Op Val World Bnd FId Err.
+  Variable funs : FId -> option (fundef Name Atom Op Val FId).
+  Variable blk : list (stmt Name Atom Op FId) -> cfg Name World Bnd -> result Err (signal * cfg Name World Bnd).
+  Notation gcfg := (cfg Name World Bnd).
+
+  (* a WHILE whose test NEVER fails (Inv: any property of the configurations at the test that every pass re-establishes; passes end
+     normally or with CONTINUE): for every allowance `left` it runs exactly left + 1 passes and is then cut off - ONE note (the logged
+     error) is added to the world left by the last pass, and the loop statement ends Normal: nothing stays raised, the block goes on *)
+  Theorem C11_limit_never_ends : forall (Inv : gcfg -> Prop) cnd body line,
+    (forall c, Inv c -> exists v c1 sg c2,
+        eval_opt L funs blk (l_vzero L) cnd c = Fin (v, c1) /\ l_truth L v = true /\ blk body c1 = Fin (sg, c2) /\
+        (sg = Normal \/ sg = Cont) /\ Inv c2) ->
+    forall left c, Inv c ->
+    exists c', passes Name Atom Op Val World Bnd FId Err L funs blk cnd body (S left) c c' /\ Inv c' /\
+               while_sem L funs blk left cnd body line c = Fin (Normal, set_world c' (l_limit_note L false line (world c'))).
+  Proof. exact (while_never_ends Name Atom Op Val World Bnd FId Err L funs blk). Qed.
+  (* FOR: `left` full passes (test, body, increment), then the test and the body once more; the last increment is not run *)
+  Theorem C11_limit_never_ends_for : forall (Inv : gcfg -> Prop) cnd inc body line,
+    (forall c, Inv c -> exists v c1 sg c2 c3,
+        eval_opt L funs blk (l_vzero L) cnd c = Fin (v, c1) /\ l_truth L v = true /\ blk body c1 = Fin (sg, c2) /\
+        (sg = Normal \/ sg = Cont) /\ blk inc c2 = Fin (Normal, c3) /\ Inv c3) ->
+    forall left c, Inv c ->
+    exists cl v c1 sg c2, fpasses Name Atom Op Val World Bnd FId Err L funs blk cnd inc body left c cl /\ Inv cl /\
+               eval_opt L funs blk (l_vzero L) cnd cl = Fin (v, c1) /\ l_truth L v = true /\ blk body c1 = Fin (sg, c2) /\
+               (sg = Normal \/ sg = Cont) /\
+               for_sem L funs blk left cnd inc body line c = Fin (Normal, set_world c2 (l_limit_note L true line (world c2))).
+  Proof. exact (for_never_ends Name Atom Op Val World Bnd FId Err L funs blk). Qed.
+End Limit2.
+
+(* the machine, with the constant of the code (m_N = max_loop = 10000): the body runs S m_N = 10001 times, the message
+   `[ERROR](line) Loop too many times WHILE(>10000)` is logged once (add_log onto the song left by the last pass), break_flag is 0
+   and exec() goes on with the tokens behind the loop *)
+Theorem C11_limit_constant : Z.of_nat m_N = 10000 /\ MAX_LOOP = 10000.
+Proof. exact (conj m_N_value eq_refl). Qed.
+Theorem C11_limit_exec : forall ft, ft_ok ft = true ->
+  forall n (Inv : cfg (list ch) song vv -> Prop) cnd body line rest m (c : cfg (list ch) song vv),
+  wf c -> toks_ok (SWhile cnd body line :: rest) = true ->
+  (forall c0, Inv c0 -> exists v c1 sg c2,
+      eval_opt ML (funs_of ft) (sem ML (funs_of ft) n) (Expr.SInt 0) (oexpr_of cnd) c0 = Fin (v, c1) /\ Expr.to_b v = true /\
+      sem ML (funs_of ft) n (prog_of body) c1 = Fin (sg, c2) /\ (sg = Normal \/ sg = Cont) /\ Inv c2) ->
+  Inv c ->
+  exists c', mpasses ft n (oexpr_of cnd) (prog_of body) (S m_N) c c' /\ Inv c' /\
+    wf (set_world c' (add_log (world c') (limit_msg false line))) /\
+    exec_s (S n) (SWhile cnd body line :: rest) (Ok (emb ft m c))
+    = exec_s (S n) rest (Ok (emb ft m (set_world c' (add_log (world c') (limit_msg false line))))).
+Proof. exact while_limit_exec. Qed.
+Theorem C11_limit_for_exec : forall ft, ft_ok ft = true ->
+  forall n (Inv : cfg (list ch) song vv -> Prop) init cnd inc body line rest m (c c0 : cfg (list ch) song vv),
+  wf c -> toks_ok (SFor init cnd inc body line :: rest) = true ->
+  sem ML (funs_of ft) n (prog_of init) c = Fin (Normal, c0) ->
+  (forall c1, Inv c1 -> exists v c2 sg c3 c4,
+      eval_opt ML (funs_of ft) (sem ML (funs_of ft) n) (Expr.SInt 0) (oexpr_of cnd) c1 = Fin (v, c2) /\ Expr.to_b v = true /\
+      sem ML (funs_of ft) n (prog_of body) c2 = Fin (sg, c3) /\ (sg = Normal \/ sg = Cont) /\
+      sem ML (funs_of ft) n (prog_of inc) c3 = Fin (Normal, c4) /\ Inv c4) ->
+  Inv c0 ->
+  exists cl v c1 sg c2,
+    mfpasses ft n (oexpr_of cnd) (prog_of inc) (prog_of body) m_N c0 cl /\ Inv cl /\
+    eval_opt ML (funs_of ft) (sem ML (funs_of ft) n) (Expr.SInt 0) (oexpr_of cnd) cl = Fin (v, c1) /\ Expr.to_b v = true /\
+    sem ML (funs_of ft) n (prog_of body) c1 = Fin (sg, c2) /\ (sg = Normal \/ sg = Cont) /\
+    wf (set_world c2 (add_log (world c2) (limit_msg true line))) /\
+    exec_s (S n) (SFor init cnd inc body line :: rest) (Ok (emb ft m c))
+    = exec_s (S n) rest (Ok (emb ft m (set_world c2 (add_log (world c2) (limit_msg true line))))).
+Proof. exact for_limit_exec. Qed.
+
+(* ------------------------------------------------------------------------------------------------ *)
+(* 2.4 declared defaults                                                                              *)
+Section Defaults2.
+  Variables Name Atom Op Val World Bnd FId Err : Type.
+  Variable L : lang Name Atom Op Val World Bnd FId Err.
+  Variable blk : list (stmt Name Atom Op FId) -> cfg Name World Bnd -> result Err (signal * cfg Name World Bnd).
+  Notation gcfg := (cfg Name World Bnd).
+  Notation FILL := (fill Name Atom Op Val World Bnd FId Err L).
+
+  (* a call with the argument values vs - fewer than parameters, more, some without a value - IS the call with the completed list
+     `fill params vs`: one value per parameter; no NoDup or length hypothesis *)
+  Theorem C11_defaults_fill : forall fd vs (c : gcfg), call_body L blk fd (FILL (fd_params fd) vs) c = call_body L blk fd vs c.
+  Proof. exact (call_body_fill Name Atom Op Val World Bnd FId Err L blk). Qed.
+  (* the completed list: the argument where one with a value is given ... *)
+  Theorem C11_defaults_given : forall ps vs j x d, nth_error ps j = Some (x, d) -> l_is_none L (nth j vs (l_vnone L)) = false ->
+    nth j (FILL ps vs) (l_vnone L) = nth j vs (l_vnone L).
+  Proof. exact (fill_given Name Atom Op Val World Bnd FId Err L). Qed.
+  (* ... the declared default where the call has fewer arguments ... *)
+  Theorem C11_defaults_missing : forall ps vs j x d, l_is_none L (l_vnone L) = true ->
+    nth_error ps j = Some (x, d) -> (length vs <= j)%nat -> nth j (FILL ps vs) (l_vnone L) = d.
+  Proof. exact (fill_missing Name Atom Op Val World Bnd FId Err L). Qed.
+  (* ... or the argument has no value (`F(,2)`, `F(G())` with G yielding nothing) *)
+  Theorem C11_defaults_valueless : forall ps vs j x d, nth_error ps j = Some (x, d) -> l_is_none L (nth j vs (l_vnone L)) = true ->
+    nth j (FILL ps vs) (l_vnone L) = d.
+  Proof. exact (fill_valueless Name Atom Op Val World Bnd FId Err L). Qed.
+  (* arguments beyond the parameter list are ignored (they have been evaluated, their values are dropped) *)
+  Theorem C11_extra_args_ignored : forall fd vs extra (c : gcfg),
+    (length (fd_params fd) <= length vs)%nat -> call_body L blk fd (vs ++ extra) c = call_body L blk fd vs c.
+  Proof. exact (call_extra_args_ignored Name Atom Op Val World Bnd FId Err L blk). Qed.
+End Defaults2.
+
+(* the machine: exec_userfunc_or_array_or_macro after the arguments have been evaluated *)
+Theorem C11_defaults_exec : forall ec fd vs st, finish_call ec fd (mfill (f_params fd) vs) st = finish_call ec fd vs st.
+Proof. exact finish_call_fill. Qed.
+Theorem C11_defaults_entry_exec : forall ps vs j x d, nth_error ps j = Some (x, d) ->
+  nth j (mfill ps vs) Expr.SNone = (if Expr.is_none (nth j vs Expr.SNone) then d else nth j vs Expr.SNone)
+  /\ length (mfill ps vs) = length ps.
+Proof. exact (fun ps vs j x d H => conj (mfill_entry ps vs j x d H) (mfill_length ps vs)). Qed.
+Theorem C11_extra_args_exec : forall ec fd vs extra st,
+  (length (f_params fd) <= length vs)%nat -> finish_call ec fd (vs ++ extra) st = finish_call ec fd vs st.
+Proof. exact finish_call_extra_args. Qed.
+
 
 Print Assumptions C11_for_unroll_text.
 Print Assumptions C11_loop_unroll_exec.
@@ -597,3 +707,16 @@ Print Assumptions C11_continue_skips_exec.
 Print Assumptions C11_continue_skips_for_exec.
 Print Assumptions C11_for_increment_break_refuted.
 Print Assumptions C11_for_increment_break_escapes.
+Print Assumptions C11_limit_never_ends.
+Print Assumptions C11_limit_never_ends_for.
+Print Assumptions C11_limit_constant.
+Print Assumptions C11_limit_exec.
+Print Assumptions C11_limit_for_exec.
+Print Assumptions C11_defaults_fill.
+Print Assumptions C11_defaults_given.
+Print Assumptions C11_defaults_missing.
+Print Assumptions C11_defaults_valueless.
+Print Assumptions C11_extra_args_ignored.
+Print Assumptions C11_defaults_exec.
+Print Assumptions C11_defaults_entry_exec.
+Print Assumptions C11_extra_args_exec.
